@@ -19,7 +19,7 @@ class Config:
     stable: str = "none"  # none | some | all
     scalar_initial_mass: bool = False
     helicity_couplings: bool = False
-    dynamics: str = "none"  # none | bw | bwff
+    dynamics: str = "none"  # none | bw | bwff | bwsff (simple BW + form factor) | bwedw (energy-dependent width, no form factor) | nodynff
     relabel: bool = False  # final-state ids 1..3 (needed by DPD)
     naming: str = "default"  # default | parent (insert_parent_helicities) | nochild (insert_child_helicities off)
 
@@ -67,7 +67,16 @@ def make_builder(cfg: Config, reaction=None):
     b.naming.insert_parent_helicities = cfg.naming == "parent"
     b.naming.insert_child_helicities = cfg.naming != "nochild"
     if cfg.dynamics != "none":
-        builder = create_relativistic_breit_wigner if cfg.dynamics == "bw" else create_relativistic_breit_wigner_with_ff
+        if cfg.dynamics in {"bwsff", "bwedw"}:  # the two combinations of RelativisticBreitWignerBuilder without a convenience constructor
+            from ampform.dynamics.builder import RelativisticBreitWignerBuilder
+
+            builder = RelativisticBreitWignerBuilder(form_factor=cfg.dynamics == "bwsff", energy_dependent_width=cfg.dynamics == "bwedw")
+        elif cfg.dynamics == "nodynff":
+            from ampform.dynamics.builder import create_non_dynamic_with_ff
+
+            builder = create_non_dynamic_with_ff
+        else:
+            builder = create_relativistic_breit_wigner if cfg.dynamics == "bw" else create_relativistic_breit_wigner_with_ff
         for name in r.get_intermediate_particles().names:
             b.dynamics.assign(name, builder)
     return b
